@@ -104,6 +104,7 @@ func cmdWorker(args []string) int {
 	known := fs.String("known", "", "")
 	deadline := fs.Int64("deadline", 0, "unix seconds after which the worker stops (wall-clock cap; the evidence reports what was done)")
 	prof := fs.String("cpuprofile", "", "")
+	rpp := fs.Int64("rpp", -1, "runs per process before asking for a restart (-1 = the scenario's default, 0 = never)")
 	fs.Parse(args)
 	if *prof != "" {
 		f, _ := os.Create(*prof)
@@ -112,6 +113,10 @@ func cmdWorker(args []string) int {
 	}
 	sc := getScenario(*prop)
 	applyMemLimit(sc)
+	perProc := sc.RunsPerProcess
+	if *rpp >= 0 {
+		perProc = uint64(*rpp)
+	}
 	kn := loadKnown(*known, *prop)
 	loadSites("")
 	if len(sitesTable) > 0 {
@@ -167,7 +172,7 @@ func cmdWorker(args []string) int {
 		if done%64 == 0 {
 			flushStats()
 		}
-		if sc.RunsPerProcess != 0 && done >= sc.RunsPerProcess && i+*n < *count {
+		if perProc != 0 && done >= perProc && i+*n < *count {
 			// hand the rest of the stripe to a fresh process (cold library state)
 			restartAt = int64(i + 1)
 			break
